@@ -201,6 +201,7 @@ class Context:
         """
         invalidated_identifiers: NameList = []
         failed_processes: Set[ProcessStatus] = set()
+        stopped_processes: Set[ProcessStatus] = set()
         for status in self.instances.values():
             if status.state == SupvisorsInstanceStates.FAILED:
                 # invalid silent Supvisors instances
@@ -213,8 +214,12 @@ class Context:
                 #       and their related description.
                 failed_processes.update({process for process in status.running_processes()
                                          if process.invalidate_identifier(status.identifier)})
+                # a process that was STOPPING on the Supvisors instance is not in failure (no automatic behaviour expected)
+                # but the Supvisors instance cannot remain in its running identifiers, as no event will come anymore
+                stopped_processes.update({process for process in status.processes.values()
+                                          if process.invalidate_identifier(status.identifier)})
         # trigger the corresponding Supvisors events
-        self.publish_process_failures(failed_processes)
+        self.publish_process_failures(failed_processes | stopped_processes)
         #  return the identifiers of all invalidated Supvisors instances and the processes declared in failure
         return invalidated_identifiers, failed_processes
 
